@@ -17,6 +17,7 @@ def step (s : DState) (line : String) : DState × String :=
   match toks.head? with
   | some ("k1", _) => (s, k1 toks)
   | some ("k2", _) => (s, k2 toks)
+  | some ("k3", _) => (s, k3 toks)
   | some ("kparse", _) => (s, kparse toks)
   | some ("kvstr", _) => (s, kvstr toks)
   | some ("ktv", _) => (s, ktv toks)
